@@ -558,10 +558,8 @@ pub fn run_faults<C: KeyColl>(tr: &mut Trace, paths: &[(usize, Vec<KOp>)], keys:
                 s.apply(call, j);
                 // did it unwind? (last event says so); cheap test: ask the instrumentation
                 let unwound = s.last_unwound;
-                if !unwound {
-                    break;
-                }
-                // the collection must still be usable: observe everything, then mutate again
+                // the collection must still be usable: observe everything, then mutate again (also after
+                // the control run in which no callback panicked)
                 let t = s.now;
                 for p in 0..=keys + 1 {
                     s.apply(&KOp::Get { t, k: p }, 0);
@@ -578,6 +576,9 @@ pub fn run_faults<C: KeyColl>(tr: &mut Trace, paths: &[(usize, Vec<KOp>)], keys:
                 }
                 let _ = done;
                 s.apply(&KOp::Lt { t, p: keys + 1 }, 0);
+                if !unwound {
+                    break;
+                }
                 j += 1;
                 if j > 200 {
                     break;
